@@ -47,9 +47,17 @@ var idxZones = []*time.Location{time.UTC, time.FixedZone("UTC-10", -10*3600), ti
 type idxAction struct {
 	// push | fail-series | fail-samples | reset | retry | nextday
 	Op      string `json:"op"`
-	Proto   string `json:"proto,omitempty"`   // loki | prom
+	Proto   string `json:"proto,omitempty"`   // loki | prom | influx
 	Streams []int  `json:"streams,omitempty"` // which of the label sets
 	Offs    []int  `json:"offs,omitempty"`    // indexes into idxOffsets, one entry per sample, dealt round-robin to the streams
+	// Dup (loki): every stream is listed twice in the body, the second time with its labels
+	// in the other order; its samples alternate between the two occurrences, so the same
+	// label set reaches the parser callback twice in one request, possibly with other days.
+	Dup bool `json:"dup,omitempty"`
+	// Long (prom): the first series is a back-fill of more than 1000 points, one per minute,
+	// whose point 1000 is the first of the next UTC day: the decoder hands a series over in
+	// chunks of 1000 points, the second chunk lies on a day the first did not touch.
+	Long bool `json:"long,omitempty"`
 }
 
 type idxCase struct {
@@ -61,7 +69,8 @@ type idxCase struct {
 
 // seconds relative to UTC midnight of the current day; the local-midnight entries are
 // resolved against the case's zone
-var idxOffsets = []int{43200, -1, 0, 1, 1799, 1800, 1801, 86399, -100000 /* local midnight -1s */, -100001 /* local midnight */, -100002 /* local midnight +1s */, 3600}
+var idxOffsets = []int{43200, -1, 0, 1, 1799, 1800, 1801, 86399, -100000 /* local midnight -1s */, -100001 /* local midnight */, -100002 /* local midnight +1s */, 3600,
+	86400 + 3600 /* next day 01:00 */, -86400 + 43200 /* previous day noon */, 86400 /* next UTC midnight */}
 
 const idxDay0 = int64(19737) // 2024-01-15
 
@@ -74,9 +83,15 @@ func genIndexing(rt *rapid.T) idxCase {
 	act := rapid.Custom(func(rt *rapid.T) idxAction {
 		a := idxAction{Op: rapid.SampledFrom(ops).Draw(rt, "op")}
 		if a.Op == "push" {
-			a.Proto = rapid.SampledFrom([]string{"loki", "prom"}).Draw(rt, "proto")
+			a.Proto = rapid.SampledFrom([]string{"loki", "prom", "influx"}).Draw(rt, "proto")
 			a.Streams = rapid.SliceOfNDistinct(rapid.IntRange(0, 2), 1, 3, func(i int) int { return i }).Draw(rt, "streams")
-			a.Offs = rapid.SliceOfN(rapid.IntRange(0, len(idxOffsets)-1), 1, 4).Draw(rt, "offs")
+			a.Offs = rapid.SliceOfN(rapid.IntRange(0, len(idxOffsets)-1), 1, 6).Draw(rt, "offs")
+			switch a.Proto {
+			case "loki":
+				a.Dup = rapid.IntRange(0, 2).Draw(rt, "dup") == 1
+			case "prom":
+				a.Long = rapid.IntRange(0, 3).Draw(rt, "long") == 2
+			}
 		}
 		return a
 	})
@@ -118,13 +133,42 @@ func idxBuild(p *idxPush, loc *time.Location) *http.Request {
 		per[s] = append(per[s], at(k)+int64(i)*1000)
 	}
 	p.samples = nil
+	if p.action.Proto == "influx" {
+		// one line = one call of the parser callback: a stream with several samples is a
+		// repeated series by construction
+		var sb strings.Builder
+		n := 0
+		for _, s := range p.action.Streams {
+			for i, t := range per[s] {
+				msg := fmt.Sprintf("I%d-%d-%d", p.id, s, i)
+				fmt.Fprintf(&sb, "s%d,job=c04 message=\"%s\" %d\n", s, msg, t)
+				p.samples = append(p.samples, idxSample{marker: msg, tNs: t})
+				n++
+			}
+		}
+		r := httptest.NewRequest("POST", "/influx/api/v2/write", strings.NewReader(sb.String()))
+		r.Header.Set("Content-Type", "text/plain")
+		return r
+	}
 	if p.action.Proto == "prom" {
 		wr := &prompb.WriteRequest{}
-		for _, s := range p.action.Streams {
+		for si, s := range p.action.Streams {
 			if len(per[s]) == 0 {
 				continue
 			}
 			ts := &prompb.TimeSeries{Labels: []*prompb.Label{{Name: "__name__", Value: fmt.Sprintf("m%d", s)}, {Name: "job", Value: "c04"}}}
+			if p.action.Long && si == 0 {
+				// promMetricsProtoDec.Decode flushes every 1000 points (flushLimit)
+				// one point per minute: the points behind number 1000 go well past the read
+				// side's 30-minute slack after midnight
+				start := (p.day+1)*86400 - 1000*60
+				total := 1000 + 40 + (len(p.action.Offs)*37)%160
+				for j := 0; j < total; j++ {
+					ms := (start+int64(j)*60)*1000 + int64(p.id)
+					ts.Samples = append(ts.Samples, &prompb.Sample{Value: float64(j), Timestamp: ms})
+					p.samples = append(p.samples, idxSample{prefix: true, tNs: ms * 1e6})
+				}
+			}
 			for _, t := range per[s] {
 				ms := t / 1e6
 				ts.Samples = append(ts.Samples, &prompb.Sample{Value: float64(p.id), Timestamp: ms})
@@ -140,24 +184,40 @@ func idxBuild(p *idxPush, loc *time.Location) *http.Request {
 	var sb strings.Builder
 	sb.WriteString(`{"streams":[`)
 	first := true
-	for _, s := range p.action.Streams {
-		if len(per[s]) == 0 {
-			continue
-		}
-		if !first {
-			sb.WriteString(",")
-		}
-		first = false
-		fmt.Fprintf(&sb, `{"stream":{"app":"a%d","job":"c04"},"values":[`, s)
-		for i, t := range per[s] {
-			if i > 0 {
+	occs := 1
+	if p.action.Dup {
+		occs = 2
+	}
+	for occ := 0; occ < occs; occ++ {
+		for _, s := range p.action.Streams {
+			var mine []int
+			for i := range per[s] {
+				if occs == 1 || i%2 == occ {
+					mine = append(mine, i)
+				}
+			}
+			if len(mine) == 0 {
+				continue
+			}
+			if !first {
 				sb.WriteString(",")
 			}
-			line := fmt.Sprintf("X%d-%d-%d", p.id, s, i)
-			fmt.Fprintf(&sb, `["%d","%s"]`, t, line)
-			p.samples = append(p.samples, idxSample{marker: line, tNs: t})
+			first = false
+			if occ == 0 {
+				fmt.Fprintf(&sb, `{"stream":{"app":"a%d","job":"c04"},"values":[`, s)
+			} else {
+				fmt.Fprintf(&sb, `{"stream":{"job":"c04","app":"a%d"},"values":[`, s)
+			}
+			for k, i := range mine {
+				if k > 0 {
+					sb.WriteString(",")
+				}
+				line := fmt.Sprintf("X%d-%d-%d", p.id, s, i)
+				fmt.Fprintf(&sb, `["%d","%s"]`, per[s][i], line)
+				p.samples = append(p.samples, idxSample{marker: line, tNs: per[s][i]})
+			}
+			sb.WriteString("]}")
 		}
-		sb.WriteString("]}")
 	}
 	sb.WriteString("]}")
 	r := httptest.NewRequest("POST", "/loki/api/v1/push", strings.NewReader(sb.String()))
@@ -220,7 +280,7 @@ func predIndexing(c idxCase, o *evid.Obs) error {
 		series := map[uint64][]fakech.Date{}
 		lost := map[uint64]bool{}
 		samples := map[string]inssvc.Row{}
-		var promRows []inssvc.Row
+		promRows := map[int64][]inssvc.Row{} // remote-write rows have no line: found by timestamp
 		for _, cl := range calls {
 			if !cl.Done {
 				continue
@@ -244,55 +304,52 @@ func predIndexing(c idxCase, o *evid.Obs) error {
 				for _, r := range rows {
 					samples[r.Marker] = r
 					if s, _ := r.Cols["string"].(string); s == "" {
-						promRows = append(promRows, r)
+						t, _ := r.Cols["timestamp_ns"].(int64)
+						promRows[t] = append(promRows[t], r)
 					}
 				}
 			}
 		}
 		for _, p := range ackedPushes {
 			for _, s := range p.samples {
-				var row inssvc.Row
-				found := false
+				var rows []inssvc.Row
 				if !s.prefix {
-					row, found = samples[s.marker]
+					if r, ok := samples[s.marker]; ok {
+						rows = []inssvc.Row{r}
+					}
 				} else {
-					for _, r := range promRows {
-						if strings.HasPrefix(r.Marker, s.marker) {
-							row, found = r, true
+					rows = promRows[s.tNs] // every stream of the push that has a point at that instant
+				}
+				// an acknowledged sample that was never inserted is C01's finding, not judged here
+				for _, row := range rows {
+					fp, _ := row.Cols["fingerprint"].(uint64)
+					t, _ := row.Cols["timestamp_ns"].(int64)
+					need := fakech.Date((t/1e9 - 1800) / 86400) // FormatFromDate(from) with from = t
+					if t/1e9-1800 < 0 {
+						need = 0
+					}
+					ok := false
+					for _, d := range series[fp] {
+						if d >= need {
+							ok = true
 							break
 						}
 					}
-				}
-				if !found {
-					continue // an acknowledged sample that was never inserted is C01's finding
-				}
-				fp, _ := row.Cols["fingerprint"].(uint64)
-				t, _ := row.Cols["timestamp_ns"].(int64)
-				need := fakech.Date((t/1e9 - 1800) / 86400) // FormatFromDate(from) with from = t
-				if t/1e9-1800 < 0 {
-					need = 0
-				}
-				ok := false
-				for _, d := range series[fp] {
-					if d >= need {
-						ok = true
-						break
+					if ok {
+						continue
 					}
+					if lost[fp] && !o.Witness {
+						knownHit = true
+						continue
+					}
+					have := "none"
+					if len(series[fp]) > 0 {
+						have = fmt.Sprint(series[fp])
+					}
+					return fmt.Errorf("after step %d: push %d (%s) was acknowledged; its sample %q (fingerprint %d, t=%s) has no series row the read side would find: "+
+						"successfully inserted series dates for the fingerprint: %s; a window starting at t searches date >= %s (time.Local=%s)",
+						step, p.id, p.action.Proto, row.Marker, fp, time.Unix(0, t).UTC().Format(time.RFC3339Nano), have, need, idxZones[c.TZ])
 				}
-				if ok {
-					continue
-				}
-				if lost[fp] && !o.Witness {
-					knownHit = true
-					continue
-				}
-				have := "none"
-				if len(series[fp]) > 0 {
-					have = fmt.Sprint(series[fp])
-				}
-				return fmt.Errorf("after step %d: push %d (%s) was acknowledged; its sample %q (fingerprint %d, t=%s) has no series row the read side would find: "+
-					"successfully inserted series dates for the fingerprint: %s; a window starting at t searches date >= %s (time.Local=%s)",
-					step, p.id, p.action.Proto, row.Marker, fp, time.Unix(0, t).UTC().Format(time.RFC3339Nano), have, need, idxZones[c.TZ])
 			}
 		}
 		return nil
@@ -329,6 +386,22 @@ func predIndexing(c idxCase, o *evid.Obs) error {
 				return err
 			}
 			o.Tag(fmt.Sprintf("status:%dxx", status/100), "proto:"+p.action.Proto)
+			days := map[int64]bool{}
+			for _, sm := range p.samples {
+				days[sm.tNs/1e9/86400] = true
+			}
+			if len(days) >= 2 {
+				o.Tag("request-spans->=2-utc-days")
+				if p.action.Dup {
+					o.Tag("loki-same-stream-twice-across-days")
+				}
+				if p.action.Proto == "influx" {
+					o.Tag("influx-repeated-series-across-days")
+				}
+			}
+			if p.action.Long {
+				o.Tag("prom-backfill>1000-points-across-midnight")
+			}
 			for _, cl := range hs.DB.Calls()[before:] {
 				if cl.Table == "time_series" && cl.Done && cl.Err != nil {
 					sawFailedSeries = true
